@@ -1287,6 +1287,10 @@ class MPO(MPSGeometry):
         LP = npc.tensordot(LP0, theta, axes=['vR', 'vL'])
         LP = npc.tensordot(LP, self._W[0], axes=[['wR', 'p0'], ['wL', 'p*']])
         LP = npc.tensordot(LP, theta.conj(), axes=[['vR*', 'p'], ['vL*', 'p0*']])
+        if L == 1:
+            # the loop below evaluates after sites i >= 1 only: value after the single site of the unit cell
+            RP = env.init_RP(0)
+            current_value = npc.inner(LP, RP, axes=[['vR*', 'wR', 'vR'], ['vL*', 'wL', 'vL']], do_conj=False)
 
         for i in range(1, max(max_range, 1) * L):
             i0 = i % self.L
